@@ -2,6 +2,7 @@ package props
 
 import (
 	"fmt"
+	"sort"
 	"strconv"
 	"strings"
 
@@ -113,6 +114,7 @@ type Mail struct {
 	CheckEach bool
 	Oracle    string
 	OKs, NOs  int
+	hook      func(*wire.Result) // called with the result of the action's main command
 }
 
 // NewMail logs nsess sessions in and creates nbox-1 mailboxes besides INBOX.
@@ -218,33 +220,45 @@ func (m *Mail) selBox(si int) *model.Mailbox {
 }
 
 // setText renders a set in sequence or UID form for the session's current view.
-func (m *Mail) setText(si int, a core.Action, base int, uidForm bool) (string, []int) {
+// The third result tells whether UID form could be used (all UIDs known).
+func (m *Mail) setText(si int, a core.Action, base int, uidForm bool) (string, []int, bool) {
 	n := m.viewCount(si)
 	txt, seqs := SeqSet(a.Arg(base), a.Arg(base+1), a.Arg(base+2), n)
 	if !uidForm || n == 0 {
-		return txt, seqs
+		return txt, seqs, false
 	}
-	// UID form: translate through the model (fresh view: seq k = k-th member)
-	b := m.selBox(si)
-	if b == nil || len(b.Members) != n {
-		return txt, seqs
+	var uid func(seq int) uint32
+	if b := m.selBox(si); b != nil {
+		// fresh view: seq k = k-th member of the model mailbox
+		if len(b.Members) != n {
+			return txt, seqs, false
+		}
+		uid = func(seq int) uint32 { return b.Members[seq-1].UID }
+	} else {
+		// no model: translate through what the client has been told
+		mm := m.Sess[si].M.Msgs
+		for _, q := range seqs {
+			if mm[q-1].UID == 0 {
+				return txt, seqs, false
+			}
+		}
+		uid = func(seq int) uint32 { return mm[seq-1].UID }
 	}
-	uid := func(seq int) uint32 { return b.Members[seq-1].UID }
 	switch abs(a.Arg(base)) % 6 {
 	case 0:
-		return fmt.Sprint(uid(seqs[0])), seqs
+		return fmt.Sprint(uid(seqs[0])), seqs, true
 	case 2:
-		return "1:*", seqs
+		return "1:*", seqs, true
 	case 3:
-		return "*", seqs
+		return "*", seqs, true
 	case 4:
-		return fmt.Sprintf("%d:*", uid(seqs[0])), seqs
+		return fmt.Sprintf("%d:*", uid(seqs[0])), seqs, true
 	default:
 		parts := make([]string, len(seqs))
 		for i, s := range seqs {
 			parts[i] = fmt.Sprint(uid(s))
 		}
-		return strings.Join(parts, ","), seqs
+		return strings.Join(parts, ","), seqs, true
 	}
 }
 
@@ -296,6 +310,10 @@ func (m *Mail) Exec(a core.Action) bool {
 	}
 	ev := func(res *wire.Result, what string) {
 		e.Tr.Event(a.K, si, what, res.Status)
+		e.CheckPanics()
+		if m.hook != nil {
+			m.hook(res)
+		}
 		if res.Err != nil && e.V == nil {
 			e.Fail("protocol", "%s: %v", what, res.Err)
 		}
@@ -350,7 +368,10 @@ func (m *Mail) Exec(a core.Action) bool {
 			return false
 		}
 		b := m.selBox(si)
-		r := s.Cmd("CLOSE")
+		// CLOSE removes silently by definition and is outside the view properties: what
+		// it sends is not folded into the mirror, the view is discarded afterwards.
+		s.W.Sim.SetLabel(s.Label)
+		r := s.C.Do(wire.Simple("CLOSE"))
 		ev(r, "close")
 		if r.OK() {
 			if m.UseModel && !m.RO[si] {
@@ -401,8 +422,7 @@ func (m *Mail) Exec(a core.Action) bool {
 		if !needSel() || m.viewCount(si) == 0 {
 			return false
 		}
-		uidForm := a.Arg(6)%2 == 1
-		set, seqs := m.setText(si, a, 0, uidForm)
+		set, seqs, uidForm := m.setText(si, a, 0, a.Arg(6)%2 == 1)
 		op := abs(a.Arg(3)) % 3 // 0 set 1 add 2 remove
 		flags := FlagsFromMask(a.Arg(4)&0x7f, a.Arg(5))
 		silent := a.Arg(7)%3 == 0
@@ -416,6 +436,14 @@ func (m *Mail) Exec(a core.Action) bool {
 		}
 		r := s.Cmd("%s %s %s (%s)", verb, set, item, strings.Join(flags, " "))
 		ev(r, fmt.Sprintf("%s %s %s %v", verb, set, item, flags))
+		if silent {
+			// nothing was announced: the client no longer knows these flag sets (what the
+			// server derives a silent +/-FLAGS from is its own snapshot, which the property
+			// does not let the client assume).
+			for _, q := range seqs {
+				s.M.ForgetFlags(q)
+			}
+		}
 		if m.UseModel {
 			b := m.selBox(si)
 			if r.OK() {
@@ -434,7 +462,7 @@ func (m *Mail) Exec(a core.Action) bool {
 		if !needSel() || m.viewCount(si) == 0 {
 			return false
 		}
-		set, _ := m.setText(si, a, 0, false)
+		set, _, _ := m.setText(si, a, 0, false)
 		r := s.Cmd("STORE %s +FLAGS (\\Recent \\Seen)", set)
 		ev(r, "store-recent "+set)
 		if r.OK() {
@@ -463,7 +491,10 @@ func (m *Mail) Exec(a core.Action) bool {
 		if !needSel() || m.viewCount(si) == 0 {
 			return false
 		}
-		set, seqs := m.setText(si, a, 0, true)
+		set, seqs, isUID := m.setText(si, a, 0, true)
+		if !isUID {
+			return false
+		}
 		r := s.Cmd("UID EXPUNGE %s", set)
 		ev(r, "uid expunge "+set)
 		if m.UseModel {
@@ -483,8 +514,7 @@ func (m *Mail) Exec(a core.Action) bool {
 		if !needSel() || m.viewCount(si) == 0 {
 			return false
 		}
-		uidForm := a.Arg(4)%2 == 1
-		set, seqs := m.setText(si, a, 0, uidForm)
+		set, seqs, uidForm := m.setText(si, a, 0, a.Arg(4)%2 == 1)
 		dest := m.box(a.Arg(3))
 		verb := strings.ToUpper(a.K)
 		if uidForm {
@@ -524,7 +554,7 @@ func (m *Mail) Exec(a core.Action) bool {
 		if !needSel() || m.viewCount(si) == 0 {
 			return false
 		}
-		set, seqs := m.setText(si, a, 0, false)
+		set, seqs, _ := m.setText(si, a, 0, false)
 		peek := a.Arg(3)%2 == 0
 		item := "BODY[]"
 		if peek {
@@ -543,6 +573,34 @@ func (m *Mail) Exec(a core.Action) bool {
 		return false
 	}
 	return true
+}
+
+// applyFlagOp computes the client-side effect of a silent store (op 0 set, 1 add, 2 remove)
+// on a normalised flag list.
+func applyFlagOp(old []string, op int, flags []string) []string {
+	set := map[string]bool{}
+	if op != 0 {
+		for _, f := range old {
+			set[f] = true
+		}
+	}
+	for _, f := range flags {
+		lf := strings.ToLower(f)
+		if lf == `\recent` {
+			continue
+		}
+		if op == 2 {
+			delete(set, lf)
+		} else {
+			set[lf] = true
+		}
+	}
+	out := make([]string, 0, len(set))
+	for f := range set {
+		out = append(out, f)
+	}
+	sort.Strings(out)
+	return out
 }
 
 func seqsObjs(b *model.Mailbox, seqs []int) []*model.Obj {
